@@ -13,14 +13,40 @@ from vlib.core import zlist, lst
 PRELUDE = "Require Import DTS.Model.Readers.\nDefinition e2 := eqb_list eqb_zl.\n"
 
 
+_SERVERS = {}
+
+
 def worker(kind, directory, opts=None, tz="UTC"):
-    """one reader call in a fresh process under the host time zone `tz` (C12, C13)"""
-    env = {**os.environ, "TZ": tz, "PYTHONPATH": "/repo/src:/verif"}
-    r = subprocess.run(["/venv/bin/python", "-W", "ignore", "-m", "vlib.tz_worker", kind, directory, json.dumps(opts or {})], capture_output=True, text=True, env=env, cwd="/verif", timeout=600)
-    for line in r.stdout.splitlines():
-        if line.startswith("JSON:"):
-            return json.loads(line[5:])
-    return {"error": "worker failed: " + (r.stderr or r.stdout)[-300:]}
+    """one reader call in a separate process whose environment has the host time zone `tz` (C12); one long-lived process per zone"""
+    pr = _SERVERS.get(tz)
+    if pr is None or pr.poll() is not None:
+        env = {**os.environ, "TZ": tz, "PYTHONPATH": "/repo/src:/verif"}
+        pr = subprocess.Popen(["/venv/bin/python", "-u", "-W", "ignore", "-m", "vlib.tz_worker", "serve"], stdin=subprocess.PIPE, stdout=subprocess.PIPE,
+                              stderr=subprocess.DEVNULL, text=True, env=env, cwd="/verif")
+        _SERVERS[tz] = pr
+    try:
+        pr.stdin.write(json.dumps([kind, directory, opts or {}]) + "\n")
+        pr.stdin.flush()
+        while True:
+            line = pr.stdout.readline()
+            if not line:
+                _SERVERS.pop(tz, None)
+                return {"error": "worker process ended"}
+            if line.startswith("JSON:"):
+                return json.loads(line[5:])
+    except Exception as ex:
+        _SERVERS.pop(tz, None)
+        return {"error": f"worker failed: {type(ex).__name__}: {ex}"}
+
+
+def close_workers():
+    for pr in _SERVERS.values():
+        try:
+            pr.stdin.close()
+            pr.wait(timeout=10)
+        except Exception:
+            pr.kill()
+    _SERVERS.clear()
 
 
 def read_here(kind, directory, opts=None):
@@ -77,10 +103,13 @@ def run(ctx):
                 nn, nxx = int(rng.integers(1, 7)), int(rng.integers(3, 41))
                 d = os.path.join(tmp, f"silixa_{tname}{c}")
                 dbl = tname in ("v8", "v6-double")
-                _, nitem = gen_files.silixa_files_from(tname, d, nn, nxx, [gen_files.stamp_str(base + 60 * f) for f in range(nn)], 10, 12 if dbl else None)
-                rec = {"reader": "silixa", "template": tname, "n": nn, "nx": nxx, "items": nitem}
+                # every other set: several files within the same second (they differ in the milliseconds of name and stamp), listing reversed
+                dense = bool((c + len(tname)) % 2)
+                tms = [int(350 * f) for f in range(nn)] if dense else [60000 * f for f in range(nn)]
+                _, nitem = gen_files.silixa_files_from(tname, d, nn, nxx, [gen_files.stamp_str(base + t_ // 1000) for t_ in tms], 10, 12 if dbl else None, ms=[t_ % 1000 for t_ in tms])
+                rec = {"reader": "silixa", "template": tname, "n": nn, "nx": nxx, "items": nitem, "files_within_one_second": dense}
                 ctx.case(("silixa-template", c, tname), sample=rec)
-                o = read_here("silixa", d, {"load_in_memory": bool(rng.random() < 0.5)})
+                o = read_here("silixa", d, {"load_in_memory": bool(rng.random() < 0.5), "listing": "reversed" if dense else None})
                 if "error" in o:
                     ctx.violation(f"silixa:{tname}:raised", o["error"], rec)
                     continue
